@@ -87,7 +87,11 @@ func vpH_C12_handlers_gs() {
 				pr.Backoff = vpU64([]uint64{0, 1, 1 << 40, ^uint64(0)}[vpInt("backoff_choice", 0, 3)])
 			}
 			if vpBool("prune_px") {
-				pr.Peers = []*pb.PeerInfo{{PeerID: []byte("x")}, {}, {PeerID: []byte("p0"), SignedPeerRecord: []byte("bogus")}}[:vpInt("px_n", 1, 3)]
+				// first entry: a signed-record field of every outcome class of the (uninterpreted) envelope check: undecodable,
+				// valid record for the advertised peer, valid record naming another peer, valid envelope of ANOTHER record type
+				xp := vpPXPeer(0)
+				e0 := []*pb.PeerInfo{vpPXInfo(xp, vpEnvGarbage, ""), vpPXInfo(xp, vpEnvPeerRec, xp), vpPXInfo(xp, vpEnvPeerRec, vpPXPeer(1)), vpPXInfo(xp, vpEnvBogus, "")}[vpInt("px_record_class", 0, 3)]
+				pr.Peers = []*pb.PeerInfo{e0, {PeerID: []byte("x")}, {}, {PeerID: []byte("p0"), SignedPeerRecord: []byte("bogus")}}[:vpInt("px_n", 1, 4)]
 			}
 			ctl.Prune = []*pb.ControlPrune{pr}
 		}
